@@ -28,15 +28,42 @@ func ruleQ1(c *Ctx, id string) {
 	R.Analysed[FuncName(get)] = true
 	begins := P.CallsIn(mp, funcIs(V.JrnlBegin))
 	commits := P.CallsIn(mp, funcIs(V.JrnlCommitWait))
-	writes := P.CallsIn(mp, funcIs(V.OverWrite))
+	// the writes of the pairs, in MultiPut or in a private helper it calls (seen as the call in MultiPut)
+	type wsite struct {
+		call ssa.Instruction // the OverWrite
+		at   ssa.Instruction // where it happens in MultiPut
+		sub  Subst
+	}
+	var wsites []wsite
+	for _, sc := range scopesOf(mp) {
+		for _, w := range P.CallsIn(sc.Fn, funcIs(V.OverWrite)) {
+			at := w
+			if sc.Via != nil {
+				if sc.Via.Parent() != mp {
+					continue
+				}
+				thisW := w
+				if !MustAfter(sc.Fn, func(x ssa.Instruction) bool { return x == thisW }, nil)(sc.Fn.Blocks[0].Instrs[0]) {
+					continue
+				}
+				at = sc.Via
+			}
+			wsites = append(wsites, wsite{w, at, sc.S})
+		}
+	}
+	var writes []ssa.Instruction
+	for _, ws := range wsites {
+		writes = append(writes, ws.at)
+	}
 	ok := len(begins) == 1 && !reachableFrom(begins[0], begins[0])
 	R.Check(ok, id, "kvs.MultiPut|one operation begun outside the loop", P.Pos(mp.Pos()), "a single jrnl.Begin that is not inside the loop", "one Begin, not in a cycle", "one transaction per pair (or none): the multi-put is not atomic")
 	if !ok {
 		return
 	}
 	op := begins[0].(*ssa.Call)
-	for i, w := range writes {
-		R.Check(stripConv(recvOf(w)) == ssa.Value(op), id, fmt.Sprintf("kvs.MultiPut|write#%d on the one operation", i+1), P.Pos(w.Pos()), "every pair is written on the operation begun", "same op", "a pair is written on another operation")
+	for i, ws := range wsites {
+		w := ws.at
+		R.Check(ws.sub.resolve(recvOf(ws.call)) == ssa.Value(op), id, fmt.Sprintf("kvs.MultiPut|write#%d on the one operation", i+1), P.Pos(w.Pos()), "every pair is written on the operation begun", "same op", "a pair is written on another operation")
 	}
 	R.Check(len(writes) >= 1, id, "kvs.MultiPut|writes", P.Pos(mp.Pos()), "pairs are written through OverWrite", "present", "no write")
 	// the write set is blind and complete: every iteration of the loop over the pairs writes its pair, and
@@ -131,7 +158,7 @@ func ruleQ2(c *Ctx, id string) {
 					default:
 						continue
 					}
-					if _, fl, _, _ := loadedField(bo.Y); fl == "sz" {
+					if _, fl, _, _ := loadedFieldS(bo.Y, sc.S); fl == "sz" {
 						p.hi = bo.Op.String()
 					}
 					if k, isk := constIntDeep(bo.Y); isk && k == constOfPkg(P, jrnlPath+"/common", "LOGSIZE") {
